@@ -44,7 +44,7 @@ func perType(tier string) int {
 	if tier == "thorough" {
 		return 100000
 	}
-	return 3000
+	return 2000
 }
 
 // Prop returns the C19 check.
